@@ -125,21 +125,27 @@ def expected_fields(spec, has_data=None):
 
 
 class RecordingDul(object):
-    def __init__(self):
+    """lazy=True models a slow provider thread: queued generators are consumed only by drain()."""
+
+    def __init__(self, lazy=False):
         self.sent = []
+        self.lazy = lazy
 
     def send(self, primitive):
-        if hasattr(primitive, 'pdu_type'):
+        if hasattr(primitive, 'pdu_type') or self.lazy:
             self.sent.append(primitive)
         else:
             self.sent.append(list(primitive))
 
+    def drain(self):
+        self.sent = [p if hasattr(p, 'pdu_type') or isinstance(p, list) else list(p) for p in self.sent]
 
-def make_assoc(max_pdu_length):
+
+def make_assoc(max_pdu_length, lazy=False):
     """A real asceprovider.Association whose provider is a recorder (no thread, no socket)."""
     from pynetdicom2 import asceprovider
     assoc = asceprovider.Association.__new__(asceprovider.Association)
-    assoc.dul = RecordingDul()
+    assoc.dul = RecordingDul(lazy)
     assoc.max_pdu_length = max_pdu_length
     assoc.association_established = True
     assoc.accepted_contexts = {}
